@@ -11,6 +11,7 @@ from typing_extensions import Self
 from sigma import exceptions as sigma_exceptions
 from sigma.correlations import SigmaCorrelationRule, SigmaRuleReference
 from sigma.rule import SigmaDetection, SigmaDetections, SigmaLogSource, SigmaRule, SigmaRuleBase
+from sigma.rule.logsource import EmptyLogSource
 
 if TYPE_CHECKING:
     from sigma.exceptions import SigmaRuleLocation
@@ -94,6 +95,17 @@ class SigmaGlobalFilter(SigmaDetections):
 
 
 @dataclass
+class EmptySigmaGlobalFilter(SigmaGlobalFilter):
+    """
+    Empty global filter that is used as a placeholder for error handling purposes.
+    """
+
+    def __post_init__(self: Self) -> None:
+        # Skip all checks and initializations
+        pass
+
+
+@dataclass
 class SigmaFilter(SigmaRuleBase):
     """
     SigmaFilter class is used to represent a Sigma filter object.
@@ -115,6 +127,10 @@ class SigmaFilter(SigmaRuleBase):
         Converts from a dictionary object to a SigmaFilter object.
         """
         kwargs, errors = super().from_dict_common_params(sigma_filter, collect_errors, source)
+
+        # placeholders used when parts can't be parsed and errors are collected
+        filter_logsource: SigmaLogSource = EmptyLogSource()
+        filter_global_filter: SigmaGlobalFilter = EmptySigmaGlobalFilter({}, [])
 
         # parse log source
         try:
